@@ -199,6 +199,20 @@ check("C11", "exploration",
       "runtime monitoring: differential oracle (definition ports + hashlib/base64/codecs) + inverse laws over generated calls",
       "DESIGN.md §3 C11")
 
+check("C13", "exploration",
+      "Builds objects with the C02 chain generator extended by lazily failing, hidden failing, null, nested (with hidden / "
+      "null / empty members), nested `+:` and empty-container members; probes each with every function the property "
+      "names (field lists, objectHasEx, value / key-value arrays incl. their lengths and single elements, std.get with "
+      "failing defaults, mapWithKey with unused values, prune, objectRemoveKey, length / type / is*, equality, "
+      "assertEqual, primitiveEquals) and random pairs with mergePatch / equality, comparing value / error-ness with the "
+      "reference object model + the documented std.jsonnet definitions including their laziness; JSON-like values of "
+      "depth <= 3 for mergePatch / prune / equals / primitiveEquals / xor / xnor against independent ports and RFC "
+      "7396 output laws.",
+      "Errors are compared as error-vs-value. std.objectRemoveKey uses the C02 definition. The reference abstains "
+      "where it would have to spell numbers in exponent form or exceeds its own recursion limit.",
+      "runtime monitoring: differential oracle (reference object model + documented definitions incl. laziness) over generated inheritance chains and probes",
+      "DESIGN.md §3 C13")
+
 NOT_APPLICABLE = []
 
 
